@@ -33,12 +33,12 @@ Qed.
 (** ** The commit window: witnesses *)
 
 Definition sched_commit_cut : list label :=
-  [CPollStart; GetArrive; GetRoute; GetFirst; CDial; SAccept; CDialOk; SRecvWs; CRecvWs; CSwap;
-   Cut; SSend; CSend].
+  [CPollStart; GetArrive; GetRoute; GetFirst; CDial; SAccept; CDialOk; SRecvWs; SNoopGo; GetWake;
+   RespDeliver; CRecvWs; CSwap; Cut; SSend; CSend].
 
 Definition sched_timer_race : list label :=
-  [CPollStart; GetArrive; GetRoute; GetFirst; CDial; SAccept; CDialOk; SRecvWs; CRecvWs; CSwap;
-   STimerFire; SRecvWs; STimerClose; SSend].
+  [CPollStart; GetArrive; GetRoute; GetFirst; CDial; SAccept; CDialOk; SRecvWs; SNoopGo; GetWake;
+   RespDeliver; CRecvWs; CSwap; STimerFire; SRecvWs; STimerClose; SSend].
 
 (** ** The invariant is inductive *)
 
@@ -132,11 +132,14 @@ Proof.
   intros I B Hq.
   dis st Hq CPollStart. dis st Hq GetArrive. dis st Hq GetRoute. dis st Hq GetFirst. dis st Hq GetWake.
   dis st Hq RespDeliver. dis st Hq (PostDeliver 0). dis st Hq PostOk. dis st Hq SRecvWs. dis st Hq CRecvWs.
+  dis st Hq CSwap. dis st Hq CTimerFire. dis st Hq CTimerClose.
   clear Hq.
   destruct st; cbn in *. subst broke.
   assert (Hposts : k_posts = []) by (destruct k_posts; [reflexivity | discriminate]).
   subst k_posts.
-  destruct I as [i_sc i_cup i_exit i_rl i_wsrl i_tok i_park i_woke i_bad i_up1 i_up2 i_lexit i_open i_cand i_upg i_noupg i_pong i_pre i_closed b_sc b_cs b_pq b_s2c b_c2s].
+  assert (Hoks : k_oks = 0) by (destruct k_oks; [reflexivity | discriminate]).
+  subst k_oks.
+  destruct I as [i_sc i_cup i_exit i_rl i_wsrl i_tok i_park i_woke i_bad i_up1 i_up2 i_lexit i_open i_cand i_upg i_noupg i_pong i_pre i_closed i_paused i_ptm i_sw i_idle b_sc b_cs b_pq b_s2c b_c2s].
   cbn in *. unfold c_committed in *. cbn in *.
   specialize (b_s2c eq_refl). specialize (b_c2s eq_refl).
   (* no response in flight *)
@@ -165,6 +168,14 @@ Proof.
     subst c_ws. specialize (b_sc eq_refl). specialize (b_cs eq_refl).
     assert (Hex : c_exit = false) by (destruct c_exit; [destruct i_exit as [i_exit _]; now specialize (i_exit eq_refl) | reflexivity]).
     subst c_exit.
+    (* polling is not paused: a probe in progress has its timer running, a client waiting for
+       the write lock can take it *)
+    assert (Hpa : c_paused = false).
+    { destruct c_paused; [|reflexivity]. exfalso.
+      destruct (i_paused eq_refl) as [-> | ->].
+      - specialize (i_ptm eq_refl). destruct c_tm; cbn in *; try discriminate. now apply i_ptm.
+      - cbn in *. subst c_rl. cbn in *. discriminate. }
+    subst c_paused.
     assert (Hpq : s_pq = []).
     { destruct c_loop; cbn in *; try discriminate.
       - destruct k_req; cbn in *.
@@ -182,7 +193,7 @@ Proof.
   dis st Hq SRecvWs.
   clear Hq.
   destruct st; cbn in *. subst broke.
-  destruct I0 as [i_sc i_cup i_exit i_rl i_wsrl i_tok i_park i_woke i_bad i_up1 i_up2 i_lexit i_open i_cand i_upg i_noupg i_pong i_pre i_closed b_sc b_cs b_pq b_s2c b_c2s].
+  destruct I0 as [i_sc i_cup i_exit i_rl i_wsrl i_tok i_park i_woke i_bad i_up1 i_up2 i_lexit i_open i_cand i_upg i_noupg i_pong i_pre i_closed i_paused i_ptm i_sw i_idle b_sc b_cs b_pq b_s2c b_c2s].
   cbn in *. unfold c_committed in *. cbn in *.
   destruct c_ws, s_ws; try reflexivity.
   - exfalso. destruct i_cup as [i_cup _]. specialize (i_cup eq_refl). subst c_cand.
@@ -224,4 +235,19 @@ Proof.
   assert (Hs : s_ws st = false).
   { destruct (s_ws st) eqn:E; [|reflexivity]. rewrite (i_sc _ _ I E) in Hc. discriminate. }
   auto.
+Qed.
+
+(** The repaired client: once it has swapped, no long-polling request is in flight any more (and
+    none is issued again), so long-polling never delivers anything after - or in between - what
+    the websocket delivers. *)
+Theorem no_poll_in_flight_after_swap sched :
+  let st := run sched init in
+  c_ws st = true -> c_loop st <> LFlight /\ k_req st = false /\ k_resp st = RNone.
+Proof.
+  intros st W. pose proof (reach_inv st (reach_run sched) 0%N) as I.
+  pose proof (proj1 (i_cup _ _ I) W) as K.
+  assert (L : c_loop st <> LFlight) by (apply (i_idle _ _ I); unfold c_committed; now rewrite K).
+  pose proof (i_tok _ _ I) as T.
+  destruct (c_loop st); try congruence; cbn in T;
+    (destruct (k_req st); destruct (k_resp st); cbn in T; try lia; repeat split; congruence).
 Qed.
